@@ -53,8 +53,31 @@ def to_expr(ast):
         return f(to_expr(ast[2]))
     if k == "lam":
         # ["lam", "py", e]: the same function of the context as e, but an ordinary Python callable (no repr to inline)
+        # ["lam", "attr", e]: likewise, written with attribute access on the context (ctx._.n): a missing entry is an AttributeError
+        if ast[1] == "attr":
+            inner = ast[2]
+            return lambda ctx: _pyeval(inner, ctx)
         f = to_expr(ast[2])
         return (lambda ctx: f(ctx)) if callable(f) else (lambda ctx: f)
+    raise ValueError(ast)
+
+
+def _pyeval(ast, ctx):
+    """what a hand-written lambda using attribute access computes"""
+    k = ast[0]
+    if k == "this":
+        v = ctx
+        for n in ast[1]:
+            v = getattr(v, n)
+        return v
+    if k == "const":
+        return ast[1]
+    if k == "bin":
+        return BINOPS[ast[1]](_pyeval(ast[2], ctx), _pyeval(ast[3], ctx))
+    if k == "un":
+        return UNOPS[ast[1]](_pyeval(ast[2], ctx))
+    if k == "fn":
+        return FUNCS[ast[1]](_pyeval(ast[2], ctx))
     raise ValueError(ast)
 
 
